@@ -33,6 +33,14 @@ Fixpoint str_eqb (a b : str) : bool :=
   | _, _ => false
   end.
 
+(* Python's > on str: lexicographic by code point *)
+Fixpoint str_gtb (a b : str) : bool :=
+  match a, b with
+  | [], _ => false
+  | _ :: _, [] => true
+  | x :: r, y :: q => if x =? y then str_gtb r q else y <? x
+  end.
+
 Definition ostr_eqb (a b : option str) : bool :=
   match a, b with
   | Some x, Some y => str_eqb x y
@@ -108,7 +116,7 @@ Definition strip_quotes (s : str) : str := strip_by (fun c => c =? 34) s.   (* .
 
 (* ------------------------------------------------------------------ results *)
 
-Inductive pyexn := IndexError | KeyError | RecursionError | FuelOut.
+Inductive pyexn := IndexError | KeyError | RecursionError | FuelOut | TypeError.
 
 Inductive result (A : Type) :=
 | Ok (a : A)
@@ -914,9 +922,17 @@ Definition validate_attr (sch : schema) (namespaces : list (option str)) (a : at
                  end) [f_min; f_max] >>>
   match fget fs f_min, fget fs f_max with
   | Some vmin, Some vmax =>
+    (* attr.facets['min'] > attr.facets['max']: numbers (True = 1) compare numerically, two strings
+       lexicographically, a string against a number or True is a TypeError; the loop above leaves only the
+       first case reachable *)
     match fnum_of vmin, fnum_of vmax with
     | Some x, Some y => vcheck (negb (sf_gtb x y)) line
-    | _, _ => VExn KeyError   (* unreachable: a TypeError in Python, excluded by the loop above *)
+    | None, None =>
+      match vmin, vmax with
+      | FStr x, FStr y => vcheck (negb (str_gtb x y)) line
+      | _, _ => VExn TypeError
+      end
+    | _, _ => VExn TypeError
     end
   | _, _ => VOk
   end >>>
@@ -1023,7 +1039,7 @@ Definition element_check_rec (sch : schema) (rl : nat) (e : element) : vres :=
                  | None => VOk end) [f_xml; f_alias] >>>
   match fget (e_facets e) f_alias with
   | Some (FStr al) => vcheck (match find_element (s_elements sch) al with Some _ => true | None => false end) (e_line e)
-  | Some _ => VExn KeyError   (* unreachable: rejected by the loop above *)
+  | Some _ => VErr (e_line e)   (* True / a number is not a key of schema.elements (unreachable: rejected by the loop above) *)
   | None => VOk
   end >>>
   children_check (s_elements sch) [] (e_members e) >>>
@@ -1187,7 +1203,7 @@ Definition element_check (sch : schema) (e : element) : vres :=
                  | None => VOk end) [f_xml; f_alias] >>>
   match fget (e_facets e) f_alias with
   | Some (FStr al) => vcheck (match find_element (s_elements sch) al with Some _ => true | None => false end) (e_line e)
-  | Some _ => VExn KeyError   (* unreachable: rejected by the loop above *)
+  | Some _ => VErr (e_line e)   (* True / a number is not a key of schema.elements (unreachable: rejected by the loop above) *)
   | None => VOk
   end >>>
   children_check (s_elements sch) [] (e_members e) >>>
@@ -1283,7 +1299,7 @@ Definition dump (s : schema) : list Z :=
 (* outcome of parse_string_rec in the shape printed by harness/drivers/c41_parse.py:
    0 :: dump | [1; line] | [2; exception code] *)
 Definition d_exn (e : pyexn) : Z :=
-  match e with IndexError => 1 | KeyError => 2 | RecursionError => 3 | FuelOut => 4 end.
+  match e with IndexError => 1 | KeyError => 2 | RecursionError => 3 | FuelOut => 4 | TypeError => 5 end.
 Definition outcome (r : result schema) : list Z :=
   match r with
   | Ok s => 0 :: dump s
